@@ -170,8 +170,9 @@ func walkFacts(s *src, f *facts) {
 	join := "namePrefix+prefix+functionField.Name"
 	norm := func(x string) string { return strings.ReplaceAll(x, " ", "") }
 	prefixOK := false
-	if loop != nil {
-		t := norm(s.str(loop.Body))
+	if body != nil {
+		// the separator depends only on the namePrefix parameter: inside the loop or hoisted above it
+		t := norm(s.str(body))
 		prefixOK = strings.Contains(t, `prefix:=""ifnamePrefix!=""{prefix="."}`)
 	}
 	nameOK := recCall != nil && len(recCall.Args) >= 2 && norm(s.str(recCall.Args[1])) == join
@@ -232,6 +233,47 @@ func convertFacts(s *src, f *facts) {
 	}
 	f.b("cvFallbackError", lastRet, s.pos(fd))
 
+	// ---- the closure proxy inside findLocalFunctionToCallRecursively
+	{
+		fl := s.funcDecl("Registry", "findLocalFunctionToCallRecursively")
+		var proxy *ast.FuncLit
+		if fl != nil {
+			for _, c := range s.callsTo(fl.Body, "MakeFunc") {
+				if len(c.Args) == 2 {
+					if l, ok := c.Args[1].(*ast.FuncLit); ok {
+						proxy = l
+					}
+				}
+			}
+		}
+		valid := false
+		convs := s.callsTo(proxy, "convertValue")
+		if len(convs) == 1 {
+			if i := enclosing[*ast.IfStmt](proxy, convs[0]); i != nil && strings.HasSuffix(s.str(i.Init), ":= rcpRv[0].Elem()") {
+				name := strings.TrimSpace(strings.SplitN(s.str(i.Init), ":=", 2)[0])
+				valid = s.str(i.Cond) == name+".IsValid()"
+			}
+		}
+		f.b("pxResultChecksValid", valid, s.pos(proxy))
+		fresh := false
+		if proxy != nil {
+			// `rpcArgs = []interface{}{}` (a fresh list) declared inside the per-invocation literal
+			ast.Inspect(proxy.Body, func(n ast.Node) bool {
+				if vs, ok := n.(*ast.ValueSpec); ok {
+					for i, nm := range vs.Names {
+						if nm.Name == "rpcArgs" && i < len(vs.Values) && s.str(vs.Values[i]) == "[]interface{}{}" {
+							fresh = true
+						}
+					}
+				}
+				if a, ok := n.(*ast.AssignStmt); ok && len(a.Lhs) == 1 && s.str(a.Lhs[0]) == "rpcArgs" && a.Tok.String() == ":=" && s.str(a.Rhs[0]) == "[]interface{}{}" {
+					fresh = true
+				}
+				return true
+			})
+		}
+		f.b("pxArgsFreshPerInvocation", fresh, s.pos(proxy))
+	}
 	cc := s.funcDecl("", "createClosure")
 	var wrapper *ast.FuncLit
 	if cc != nil {
